@@ -607,6 +607,8 @@ def _index_mut(ex, args, f):
     hi = r.fields[-1] if r.ty != "RangeFrom" else usize(n)
     if ex.decide(z3.Or(z3.UGT(hi.e, n), z3.UGT(lo.e, hi.e))):
         raise PathEnd("panic", "slice index out of range")
+    if isinstance(base, SliceMut):                  # a sub-slice of a sub-slice
+        return SliceMut(base.ref, base.lo + pick(ex, lo, n), base.lo + pick(ex, hi, n))
     return SliceMut(args[0], pick(ex, lo, n), pick(ex, hi, n))
 
 
@@ -2076,3 +2078,157 @@ def _to_string_display(ex, args, f, _prev=I["<_ as ToString>::to_string"]):
             ex.call_fn(fn, [Ref(Cell(v)), Ref(Cell(fm))])
             return Str(list(fm.out), owned=True)
     return _prev(ex, args, f)
+
+
+# ---- reading a source file (PackageBuilder::with_file): the file system hands back whatever the harness installed ---------------------------
+class SrcFile(Reader):
+    """an opened source file: content bytes, st_mode (u32), modification time in seconds (u64)"""
+
+    def __init__(self, content, mode, mtime_secs):
+        Reader.__init__(self, list(content))
+        self.mode = mode
+        self.mtime_secs = mtime_secs
+
+
+SRC_FILE = [None]      # what File::open returns next (set by the harness); None = open fails
+
+
+@intr("std::fs::File::open", "File::open", "fs::File::open")
+def _file_open(ex, args, f):
+    if SRC_FILE[0] is None:
+        return err(Opaque("io::Error(NotFound)"))
+    c, m, t = SRC_FILE[0]
+    return ok(SrcFile(c, m, t))
+
+
+@intr("std::fs::File::metadata", "File::metadata")
+def _file_metadata(ex, args, f):
+    fl = deref_all(ex, args[0])
+    return ok(Adt("SrcMetadata", "SrcMetadata", [Int(fl.mode, "u32"), Int(fl.mtime_secs, "u64")]))
+
+
+@intr("std::fs::Metadata::permissions", "Metadata::permissions")
+def _md_permissions(ex, args, f):
+    return Opaque("Permissions", deref_all(ex, args[0]).fields[0])
+
+
+@intr("<_ as PermissionsExt>::mode")
+def _perm_mode(ex, args, f):
+    return deref_all(ex, args[0]).payload
+
+
+@intr("std::fs::Metadata::modified", "Metadata::modified")
+def _md_modified(ex, args, f):
+    return ok(Adt("SystemTimeV", "SystemTimeV", [deref_all(ex, args[0]).fields[1]]))
+
+
+@intr("<_ as TryInto>::try_into")
+def _systemtime_try_into(ex, args, f, _prev=I["<_ as TryInto>::try_into"]):
+    v = deref_all(ex, args[0])
+    if isinstance(v, Adt) and v.ty == "SystemTimeV":
+        # the crate's TryFrom<SystemTime> for Timestamp: whole seconds since the epoch, Overflow beyond u32 (decided separately under C20)
+        secs = v.fields[0]
+        if ex.decide(z3.UGT(secs.e, 0xffffffff)):
+            return err(Adt("TimestampError", "Overflow"))
+        return ok(Adt("Timestamp", "Timestamp", [Int(z3.Extract(31, 0, secs.e), "u32")]))
+    return _prev(ex, args, f)
+
+
+@intr("Vec::resize", "Vec::<T>::resize")
+def _vec_resize(ex, args, f):
+    """Vec::resize(n, x): an allocation request of n elements when growing (checked against the budget), then n concrete elements"""
+    v = deref_all(ex, args[0])
+    n = deref_all(ex, args[1])
+    cur = len(v.items)
+    if n.conc() is None:
+        check_budget(ex, n, "allocation (Vec::resize)")
+        if ex.decide(z3.UGT(n.e, 16)):
+            # within the budget but large and symbolic: materialising every size up to the budget would fork thousands of times; counted as outside the bound
+            raise PathEnd("skip", "Vec::resize to a symbolic size between 17 and the allocation budget")
+        k = pick(ex, n, 16)
+    else:
+        k = n.conc()
+        if k > ALLOC_BUDGET[0]:
+            raise PathEnd("alloc", "Vec::resize to %d elements" % k)
+    if k <= cur:
+        v.items = v.items[:k]
+    else:
+        v.items = v.items + [args[2]] * (k - cur)
+    return UNIT
+
+
+def _read_exact_default(ex, args, f, _prev):
+    """std's default Read::read_exact over a crate type that implements Read::read itself: read() until the buffer is full; Ok(0) before that is UnexpectedEof"""
+    rd = deref_all(ex, args[0])
+    if isinstance(rd, Adt):
+        from intrinsics2 import container_ref
+        fn = ex.find_impl("read", "Read", rd.ty)
+        if fn is None:
+            raise Unsupported("read_exact on %s without a Read impl in the crate" % rd.ty)
+        dst = deref_all(ex, args[1])
+        if isinstance(dst, SliceMut):
+            base, lo, hi = dst.ref, dst.lo, dst.hi
+        else:
+            base, lo, hi = args[1], 0, len(items_of(ex, dst))
+        pos = lo
+        for _ in range(4096):
+            if pos >= hi:
+                return ok()
+            sub = SliceMut(base, pos, hi)
+            r = ex.call_fn(fn, [container_ref(ex, args[0])[0], Ref(Cell(sub))])
+            if r.variant != "Ok":
+                er = r.fields[0]
+                if getattr(er, "tag", "") == "io::Error(Interrupted)":
+                    continue
+                return r
+            n = pick(ex, r.fields[0], hi - pos)
+            if n == 0:
+                return err(Opaque("io::Error(UnexpectedEof)"))
+            pos += n
+        raise Unsupported("read_exact: more than 4096 read calls")
+    return _prev(ex, args, f)
+
+
+for _k in ("<_ as Read>::read_exact", "<impl io::BufRead as std::io::Read>::read_exact", "<impl std::io::BufRead as std::io::Read>::read_exact"):
+    I[_k] = (lambda prev: (lambda ex, args, f: _read_exact_default(ex, args, f, prev)))(I[_k])
+
+
+class SinkV:
+    """std::io::sink(): accepts and discards everything"""
+
+    def write_all(self, ex, data):
+        return ok()
+
+    def write(self, ex, data):
+        return ok(usize(len(data)))
+
+
+@intr("std::io::sink", "sink", "io::sink")
+def _io_sink(ex, args, f):
+    return SinkV()
+
+
+@intr("std::io::copy", "io::copy", "copy")
+def _io_copy(ex, args, f):
+    """io::copy(reader, writer) for the reader models: everything that is left (up to a Take limit) goes to the writer"""
+    rd = deref_all(ex, args[0])
+    w = deref_all(ex, args[1])
+    if isinstance(rd, TakeReader):
+        inner = deref_all(ex, rd.rd)
+        rem = inner.remaining()
+        n = rem if ex.decide(z3.UGE(rd.limit.e, rem)) else pick(ex, rd.limit, rem)
+    elif isinstance(rd, Reader):
+        inner, n = rd, rd.remaining()
+    else:
+        raise Unsupported("io::copy from %r" % (rd,))
+    data = inner.data[inner.pos:inner.pos + n]
+    inner.pos += n
+    if isinstance(w, VecV):
+        w.items += [Int(b, "u8") for b in data]
+    elif hasattr(w, "write_all"):
+        r = w.write_all(ex, data)
+        if r.variant != "Ok":
+            return r
+    else:
+        raise Unsupported("io::copy into %r" % (w,))
+    return ok(Int(n, "u64"))
